@@ -143,6 +143,7 @@ type pathState struct {
 	vector     *Vector
 	wantedVec  bool
 	schedFixed bool
+	schedBlockFixed bool
 	zframes    [][]value
 	onCrash    value
 }
